@@ -1026,7 +1026,15 @@ def _install(M):
     def _inv(ex, a, k, l):
         """assumed contract: returns the inverse (of the same dtype); algebraic facts are added where needed"""
         x = a[0]
-        r = SymArr(x.shape, x.dtype if x.dtype != "int" else "real", name="inv")
+        # the inverse is a deterministic function of the argument: u_inv(term) (re / im for complex arguments)
+        xr, xi = x.terms()
+        if x.dtype == "cx":
+            fr = _inv_fun("u_inv_cre", [xr.sort(), xi.sort()], xr.sort())
+            fi = _inv_fun("u_inv_cim", [xr.sort(), xi.sort()], xr.sort())
+            r = SymArr(x.shape, "cx", re=fr(xr, xi), im=fi(xr, xi), name="inv")
+        else:
+            fr = _inv_fun("u_inv", [xr.sort()], xr.sort())
+            r = SymArr(x.shape, "real", re=fr(xr), name="inv")
         r.inverse_of = x
         le = getattr(ex, "last_eigh", None)
         if le is not None and le[2] is x and x.dtype != "cx":
@@ -1038,6 +1046,7 @@ def _install(M):
                                                          r.get([i, kk]) == x.get([kk, i]))))
         return r
     M.table["numpy.linalg.inv"] = Builtin("numpy.linalg.inv", _inv)
+    M.table["inv"] = M.table["numpy.linalg.inv"]          # spec-language alias
     M.table["scipy.linalg.inv"] = Builtin("scipy.linalg.inv", _inv)
 
     _prim = z3.Function("u_prim", z3.ArraySort(z3.IntSort(), z3.RealSort()), z3.ArraySort(z3.IntSort(), z3.RealSort()),
@@ -1068,6 +1077,16 @@ def _install(M):
     M.table["scipy.constants.physical_constants"] = Opaque("physical_constants")
     M.table["numpy.pi"] = V.const_pi()
     M.table["math.pi"] = V.const_pi()
+
+
+_INVF = {}
+
+
+def _inv_fun(name, dom, rng):
+    key = (name, tuple(d.sexpr() for d in dom))
+    if key not in _INVF:
+        _INVF[key] = z3.Function("%s_%d" % (name, len(_INVF)), *dom, rng)
+    return _INVF[key]
 
 
 def singleton_hook(ex, cinfo, args, kwargs, line):
